@@ -223,7 +223,7 @@ def validate(traces, dev=()):
     with open(path, "w") as f:
         json.dump(traces, f)
     try:
-        d = {k: (k in dev) for k in ("LrsvWideMatrixIndex", "PcmWideMatrixShape", "WhitenEigNotOrthogonal", "SmwZeroSkipShiftsIndex", "ProjLazyOQFromCallerArray")}
+        d = {k: (k in dev) for k in ("LrsvWideMatrixIndex", "PcmWideMatrixShape", "WhitenEigNotOrthogonal", "SmwZeroSkipShiftsIndex", "ProjLazyOQFromCallerArray", "ConvNarrowIntHalfPrecision")}
         defs = {"Shapes": "<<<<1, 1>>>>", "Dev": tlc.tla(d)}
         cfg = tlc.cfg_text(constants={"Kind": '"trace"', "Seed": "0", "Lo": "0", "Hi": "0", "Alpha": "1"}, defs=defs,
                            init="TInit", next_="TNext", invariants=["Conforms"])
